@@ -10,20 +10,22 @@ OWNED_LIST_FIELDS = ["World.made", "World.wpaths", "World.wdata", "World.out"]
 
 @contract("cminx.rstwriter:RSTWriter.write_to_file")
 class RSTWriter_write_to_file:
-    """C18: exactly one file is written: the given path, holding the serialised document"""
+    """C18: exactly one file is written: the given path (white space around it removed - that is what the code opens),
+    holding the serialised document; an empty path is refused"""
     props = ["C18", "C13", "C14"]
     receivers = ["RSTWriter"]
     types = {"file": "str"}
     raises = {"ValueError": lambda file: file == ""}
 
     def requires(self, file):
-        return tree_ok(self) and file != "" and file.strip() == file
+        return tree_ok(self)
 
     def ensures(self, file):
-        return (len(WORLD.wpaths) == len(old.WORLD.wpaths) + 1 and WORLD.wpaths[-1] == file and
-                WORLD.wdata[-1] == writer_text(self) and
-                forall(0, len(old.WORLD.wpaths), lambda i: WORLD.wpaths[i] == old.WORLD.wpaths[i] and
-                       WORLD.wdata[i] == old.WORLD.wdata[i]))
+        return (file != "" and
+                len(WORLD.wpaths) == len(old.WORLD.wpaths) + 1 and WORLD.wpaths[-1] == file.strip() and
+                len(WORLD.wdata) == len(old.WORLD.wdata) + 1 and WORLD.wdata[-1] == writer_text(self) and
+                forall(0, len(old.WORLD.wpaths), lambda i: WORLD.wpaths[i] == old.WORLD.wpaths[i]) and
+                forall(0, len(old.WORLD.wdata), lambda i: WORLD.wdata[i] == old.WORLD.wdata[i]))
     modifies = ["items(WORLD.wpaths)", "items(WORLD.wdata)"]
 
 
@@ -63,25 +65,424 @@ class document_single_file_c:
     raises_exact = False
 
     def requires(file, root, settings):
-        return (len(header_chars(settings)) >= 1 and rel_name(file, root) != settings.rst.module_path_separator and
-                not exists(0, len(WORLD.made), lambda i: WORLD.made[i] == root) and
-                (settings.output.directory is None or settings.output.directory != root or fs_isdir(root)) and
-                (settings.output.directory is None or page_path(settings.output.directory, file, root) != "") and
-                (settings.output.directory is None or
-                 page_path(settings.output.directory, file, root).strip() == page_path(settings.output.directory, file, root)))
+        return (len(header_chars(settings)) >= 1 and
+                (fs_isdir(root) or not exists(0, len(WORLD.made), lambda i: WORLD.made[i] == root)) and
+                (settings.output.directory is None or settings.output.directory != root or fs_isdir(root)))
 
     def ensures_stdout(file, root, settings):
+        """no output directory: exactly one print, no file, no directory"""
         return (settings.output.directory is not None or
                 (len(WORLD.out) == len(old.WORLD.out) + 1 and
-                 forall(0, len(old.WORLD.out), lambda i: WORLD.out[i] == old.WORLD.out[i]) and
-                 len(WORLD.wpaths) == len(old.WORLD.wpaths) and len(WORLD.made) == len(old.WORLD.made)))
+                 forall(0, len(old.WORLD.out), lambda i: WORLD.out[i] == old.WORLD.out[i])))
 
     def ensures_file(file, root, settings):
+        """output directory: it is created if missing, exactly one page is written, nothing is printed"""
         return (settings.output.directory is None or
-                (len(WORLD.out) == len(old.WORLD.out) and
-                 len(WORLD.made) == len(old.WORLD.made) + 1 and WORLD.made[-1] == settings.output.directory and
+                (len(WORLD.made) == len(old.WORLD.made) + 1 and WORLD.made[-1] == settings.output.directory and
                  len(WORLD.wpaths) == len(old.WORLD.wpaths) + 1 and
-                 WORLD.wpaths[-1] == page_path(settings.output.directory, file, root) and
-                 forall(0, len(old.WORLD.wpaths), lambda i: WORLD.wpaths[i] == old.WORLD.wpaths[i] and
-                        WORLD.wdata[i] == old.WORLD.wdata[i])))
-    modifies = ["items(WORLD.out)", "items(WORLD.wpaths)", "items(WORLD.wdata)", "items(WORLD.made)"]
+                 WORLD.wpaths[-1] == page_path(settings.output.directory, file, root).strip() and
+                 len(WORLD.wdata) == len(old.WORLD.wdata) + 1 and
+                 forall(0, len(old.WORLD.made), lambda i: WORLD.made[i] == old.WORLD.made[i]) and
+                 forall(0, len(old.WORLD.wpaths), lambda i: WORLD.wpaths[i] == old.WORLD.wpaths[i]) and
+                 forall(0, len(old.WORLD.wdata), lambda i: WORLD.wdata[i] == old.WORLD.wdata[i])))
+    modifies = ["items(WORLD.out) if settings.output.directory is None else None",
+                "items(WORLD.wpaths) if settings.output.directory is not None else None",
+                "items(WORLD.wdata) if settings.output.directory is not None else None",
+                "items(WORLD.made) if settings.output.directory is not None else None"]
+
+
+# ================================================================ document(): the directory walk (C13-C15, C17, C18)
+OWNED_LIST_FIELDS += ["PathSpec.g_patterns", "InputSettings.exclude_filters", "RSTSettings.headers"]
+
+
+@spec
+def norm_input(input_file: str) -> str:
+    """the input path as document() uses it: absolute, a directory with a trailing separator"""
+    return (path_join(path_abspath(input_file), "") if fs_isdir(path_abspath(input_file))
+            else path_abspath(input_file))
+
+
+@spec
+def keepd(spec: "ref:PathSpec", root: str, d: str) -> bool:
+    """C15: a sub-directory is kept iff its path, with a trailing separator, matches no exclude pattern"""
+    return not spec_excl(spec, path_join(root, path_join(d, "")))
+
+
+@spec
+def keepf(spec: "ref:PathSpec", root: str, f: str) -> bool:
+    """C15: a file is kept iff its path matches no exclude pattern"""
+    return not spec_excl(spec, path_join(root, f))
+
+
+@spec(opaque=True, reads=["f:DirEntry.path", "f:DirEntry.g_isfile"])
+def has_cmake(spec: "ref:PathSpec", p: str) -> bool:
+    """C13 (auto-exclusion): directory p directly contains a regular, non-excluded file whose name ends in .cmake"""
+    return exists(0, len(fs_scandir(p)), lambda m: fs_scandir(p)[m].g_isfile and
+                  fs_scandir(p)[m].path.endswith(".cmake") and not spec_excl(spec, fs_scandir(p)[m].path))
+
+
+@spec
+def keepc(spec: "ref:PathSpec", root: str, d: str) -> bool:
+    return has_cmake(spec, path_join(root, d))
+
+
+@spec
+def is_cm(f: str) -> bool:
+    """C13: the .cmake extension, matched case-insensitively"""
+    return f.lower().endswith(".cmake")
+
+
+@lemma
+def nkd_nonneg(spec: "ref:PathSpec", root: str, l: "list[str]", k: int):
+    props("C15", "C13")
+    requires(k >= 0)
+    ensures(nkd(spec, root, l, k) >= 0)
+    induction(k)
+
+
+@spec(nonneg=True)
+def nkd(spec: "ref:PathSpec", root: str, l: "list[str]", k: int) -> int:
+    """how many of the first k names are kept sub-directories"""
+    return 0 if k <= 0 else nkd(spec, root, l, k - 1) + (1 if keepd(spec, root, l[k - 1]) else 0)
+
+
+@lemma
+def nkf_nonneg(spec: "ref:PathSpec", root: str, l: "list[str]", k: int):
+    props("C15", "C13")
+    requires(k >= 0)
+    ensures(nkf(spec, root, l, k) >= 0)
+    induction(k)
+
+
+@spec(nonneg=True)
+def nkf(spec: "ref:PathSpec", root: str, l: "list[str]", k: int) -> int:
+    """how many of the first k names are kept files"""
+    return 0 if k <= 0 else nkf(spec, root, l, k - 1) + (1 if keepf(spec, root, l[k - 1]) else 0)
+
+
+@lemma
+def nkc_nonneg(spec: "ref:PathSpec", root: str, l: "list[str]", k: int):
+    props("C15", "C13")
+    requires(k >= 0)
+    ensures(nkc(spec, root, l, k) >= 0)
+    induction(k)
+
+
+@spec(nonneg=True)
+def nkc(spec: "ref:PathSpec", root: str, l: "list[str]", k: int) -> int:
+    """how many of the first k sub-directories directly contain a CMake file"""
+    return 0 if k <= 0 else nkc(spec, root, l, k - 1) + (1 if keepc(spec, root, l[k - 1]) else 0)
+
+
+@lemma
+def ncm_nonneg(l: "list[str]", k: int):
+    props("C13", "C14", "C18")
+    requires(k >= 0)
+    ensures(ncm(l, k) >= 0)
+    induction(k)
+
+
+@spec(nonneg=True)
+def ncm(l: "list[str]", k: int) -> int:
+    """how many of the first k names are CMake files"""
+    return 0 if k <= 0 else ncm(l, k - 1) + (1 if is_cm(l[k - 1]) else 0)
+
+
+@spec
+def index_path(out: str, root: str, top: str) -> str:
+    """C13/C14: one index.rst per processed directory, at the directory's relative path below the output directory"""
+    return path_join(path_join(out, path_relpath(root, top)), "index.rst")
+
+
+@spec
+def world_same(n_w: int, n_m: int, n_o: int) -> bool:
+    return len(WORLD.wpaths) == n_w and len(WORLD.wdata) == n_w and len(WORLD.made) == n_m and len(WORLD.out) == n_o
+
+
+@spec
+def toctree_shape(t: "ref:Directive") -> bool:
+    """the toctree directive as document() builds it: heading, the one option maxdepth=2, then only text entries"""
+    return (typeof(t, "Directive") and t.title == "toctree" and len(t.document) >= 1 and
+            typeof(t.document[0], "DirectiveHeading") and
+            len(t.options) == 1 and typeof(t.options[0], "Option") and
+            cast(t.options[0], "Option").option_string == indent_of(t.indent) + ":maxdepth: 2" and
+            forall(1, len(t.document), lambda i: typeof(t.document[i], "Paragraph")))
+
+
+@spec
+def entry_text(t: "ref:Directive", i: int, txt: str) -> bool:
+    """position i of the toctree's content is the one-line entry txt"""
+    return typeof(t.document[i], "Paragraph") and cast(t.document[i], "Paragraph").text == txt
+
+
+@spec
+def index_title(prefix: str, sep: str, rel: str) -> str:
+    """C14: an index page is titled after its directory: the prefix for the top directory, prefix + separator +
+    relative path below it"""
+    return prefix if rel == "." else prefix + sep + rel
+
+
+@spec
+def step_processed(auto: bool, kept: "list[str]") -> bool:
+    """C13: with auto-exclusion on, a directory without any kept file named *.cmake is skipped (the walk goes on below it)"""
+    return not auto or exists(0, len(kept), lambda q: kept[q].endswith(".cmake"))
+
+
+@lemma
+def index_tree(w: "ref:RSTWriter", t: "ref:Directive"):
+    """an index page - a heading and one well-formed directive - is a well-formed document tree"""
+    props("C14", "C13", "C18")
+    requires(typeof(w, "RSTWriter") and len(w.document) == 2 and typeof(w.document[0], "Heading") and
+             same(w.document[1], t) and typeof(t, "Directive") and tree_ok(t))
+    ensures(tree_ok(w))
+
+
+@contract("cminx:document")
+class document_c:
+    """C15 (whole-input exclusion, pruning), C13 (pages and index files of one walk step, recursion cut-off, auto-exclusion),
+    C14 (index content), C18 (every write below the output directory / stdout only), C12 (default prefix), C06 (missing
+    input).  Per walk step facts are `step` clauses of loop 0; how the steps compose is os.walk's (trusted) contract."""
+    props = ["C13", "C14", "C15", "C17", "C18", "C12", "C06"]
+    types = {"input_file": "str", "settings": "ref:Settings", "output_path": "opt[str]", "prefix": "opt[str]",
+             "recursive": "bool", "input_path": "str", "root": "str", "subdirs": "list[str]",
+             "filenames": "list[str]", "rel_path": "str", "path": "str", "last_dir_element": "str",
+             "new_settings": "ref:Settings", "spec": "ref:PathSpec", "index": "ref:RSTWriter", "toctree": "ref:Directive"}
+    raises = {"Exception": lambda input_file: True, "SystemExit": lambda input_file: not fs_exists(norm_input(input_file))}
+    raises_exact = False
+
+    def requires(input_file, settings):
+        return (len(header_chars(settings)) >= 1 and
+                not exists(0, len(WORLD.made), lambda i: WORLD.made[i] == path_abspath(input_file)) and
+                not exists(0, len(WORLD.made), lambda i: WORLD.made[i] == path_join(path_abspath(input_file), "")))
+
+    def ensures_append_only(input_file, settings):
+        """C18: what earlier inputs of the same run wrote is left alone"""
+        return (len(WORLD.wpaths) >= len(old.WORLD.wpaths) and len(WORLD.made) >= len(old.WORLD.made) and
+                len(WORLD.out) >= len(old.WORLD.out) and
+                forall(0, len(old.WORLD.wpaths), lambda i: WORLD.wpaths[i] == old.WORLD.wpaths[i]) and
+                forall(0, len(old.WORLD.wdata), lambda i: WORLD.wdata[i] == old.WORLD.wdata[i]) and
+                forall(0, len(old.WORLD.out), lambda i: WORLD.out[i] == old.WORLD.out[i]))
+
+    def ensures_excluded_input(input_file, settings):
+        """C15: an input path that is itself excluded produces no output at all"""
+        return (not excluded(settings.input.exclude_filters, norm_input(input_file)) or
+                (len(WORLD.wpaths) == len(old.WORLD.wpaths) and len(WORLD.made) == len(old.WORLD.made) and
+                 len(WORLD.out) == len(old.WORLD.out)))
+
+    def ensures_missing_input(input_file, settings):
+        """C06: a normal return means the input existed (or was excluded)"""
+        return excluded(settings.input.exclude_filters, norm_input(input_file)) or fs_exists(norm_input(input_file))
+
+    def ensures_lone_file(input_file, settings):
+        """C18/C13: a lone input file: exactly its page below the output directory, or exactly one print"""
+        return (excluded(settings.input.exclude_filters, norm_input(input_file)) or
+                not fs_isfile(norm_input(input_file)) or
+                (len(WORLD.wpaths) == len(old.WORLD.wpaths) and len(WORLD.made) == len(old.WORLD.made) and
+                 len(WORLD.out) == len(old.WORLD.out) + 1
+                 if settings.output.directory is None else
+                 len(WORLD.out) == len(old.WORLD.out) and len(WORLD.made) == len(old.WORLD.made) + 2 and
+                 WORLD.made[len(old.WORLD.made)] == settings.output.directory and
+                 WORLD.made[len(old.WORLD.made) + 1] == settings.output.directory and
+                 len(WORLD.wpaths) == len(old.WORLD.wpaths) + 1 and
+                 WORLD.wpaths[-1] == page_path(settings.output.directory, norm_input(input_file),
+                                               norm_input(input_file)).strip()))
+
+    def ensures_ghost_prefix(input_file, settings, new_settings, input_path):
+        """C12: in directory mode the prefix handed down is the configured one, by default the directory's name"""
+        return (excluded(settings.input.exclude_filters, norm_input(input_file)) or
+                not fs_isdir(norm_input(input_file)) or
+                new_settings.rst.prefix == (settings.rst.prefix if settings.rst.prefix is not None
+                                            else path_basename(path_normpath(norm_input(input_file)))))
+    modifies = ["items(WORLD.out) if settings.output.directory is None else None",
+                "items(WORLD.wpaths) if settings.output.directory is not None else None",
+                "items(WORLD.wdata) if settings.output.directory is not None else None",
+                "items(WORLD.made) if settings.output.directory is not None else None"]
+    loops = {
+        # ---- the walk: cross-step facts in the invariant, per-step facts in the step clauses
+        0: Loop(inv=lambda settings, new_settings, spec, input_path, prefix, output_path, recursive:
+                prefix is not None and
+                len(WORLD.wpaths) >= len(entry.WORLD.wpaths) and len(WORLD.made) >= len(entry.WORLD.made) and
+                len(WORLD.out) >= len(entry.WORLD.out) and len(WORLD.wdata) >= len(entry.WORLD.wdata) and
+                forall(0, len(entry.WORLD.wpaths), lambda i: WORLD.wpaths[i] == entry.WORLD.wpaths[i]) and
+                forall(0, len(entry.WORLD.wdata), lambda i: WORLD.wdata[i] == entry.WORLD.wdata[i]) and
+                forall(0, len(entry.WORLD.out), lambda i: WORLD.out[i] == entry.WORLD.out[i]),
+                modifies=["items(WORLD.out) if output_path is None else None",
+                          "items(WORLD.wpaths) if output_path is not None else None",
+                          "items(WORLD.wdata) if output_path is not None else None",
+                          "items(WORLD.made) if output_path is not None else None"],
+                step=[
+                    # C15: what is left in the walk's own directory list (os.walk descends into exactly these)
+                    lambda settings, spec, root:
+                    forall(0, len(cur(iter0.subdirs)), lambda q:
+                           keepd(spec, root, cur(iter0.subdirs)[q]) and
+                           (not settings.input.auto_exclude_directories_without_cmake or
+                            keepc(spec, root, cur(iter0.subdirs)[q]))),
+                    lambda settings, spec, root:
+                    forall(0, len(iter0.subdirs), lambda j:
+                           not (keepd(spec, root, iter0.subdirs[j]) and
+                                (not settings.input.auto_exclude_directories_without_cmake or
+                                 keepc(spec, root, iter0.subdirs[j]))) or
+                           exists(0, len(cur(iter0.subdirs)), lambda q: cur(iter0.subdirs)[q] == iter0.subdirs[j])),
+                    # C15: the files that survive
+                    lambda spec, root:
+                    forall(0, len(cur(iter0.filenames)), lambda q: keepf(spec, root, cur(iter0.filenames)[q])),
+                    lambda spec, root:
+                    forall(0, len(iter0.filenames), lambda j:
+                           not keepf(spec, root, iter0.filenames[j]) or
+                           exists(0, len(cur(iter0.filenames)), lambda q: cur(iter0.filenames)[q] == iter0.filenames[j])),
+                    # C13: a directory skipped by auto-exclusion leaves no trace (the walk goes on below it)
+                    lambda settings:
+                    step_processed(settings.input.auto_exclude_directories_without_cmake, cur(iter0.filenames)) or
+                    (len(WORLD.wpaths) == len(iter0.WORLD.wpaths) and len(WORLD.wdata) == len(iter0.WORLD.wdata) and
+                     len(WORLD.made) == len(iter0.WORLD.made) and len(WORLD.out) == len(iter0.WORLD.out)),
+                    # C17/C18/C13: the files handled are exactly the kept ones, in sorted name order
+                    lambda settings, filenames:
+                    not step_processed(settings.input.auto_exclude_directories_without_cmake, cur(iter0.filenames)) or
+                    (len(filenames) == len(cur(iter0.filenames)) and
+                     forall(0, len(filenames) - 1, lambda i: str_le(filenames[i], filenames[i + 1])) and
+                     forall(0, len(filenames), lambda m: exists(0, len(cur(iter0.filenames)),
+                                                                lambda q: cur(iter0.filenames)[q] == filenames[m])) and
+                     forall(0, len(cur(iter0.filenames)), lambda q: exists(0, len(filenames),
+                                                                          lambda m: filenames[m] == cur(iter0.filenames)[q]))),
+                    # C13/C18 (output directory): the directory is created below the output directory, one index.rst is
+                    # written there, then one page per CMake file (extension matched case-insensitively) at its
+                    # relative path - and nothing else; nothing is printed
+                    lambda settings, filenames, output_path, root, input_path:
+                    output_path is None or
+                    not step_processed(settings.input.auto_exclude_directories_without_cmake, cur(iter0.filenames)) or
+                    (len(WORLD.out) == len(iter0.WORLD.out) and
+                     len(WORLD.made) == len(iter0.WORLD.made) + 1 + ncm(filenames, len(filenames)) and
+                     WORLD.made[len(iter0.WORLD.made)] == path_join(output_path, path_relpath(root, input_path)) and
+                     forall(len(iter0.WORLD.made) + 1, len(WORLD.made), lambda i: WORLD.made[i] == output_path) and
+                     len(WORLD.wpaths) == len(iter0.WORLD.wpaths) + 1 + ncm(filenames, len(filenames)) and
+                     len(WORLD.wdata) == len(iter0.WORLD.wdata) + 1 + ncm(filenames, len(filenames)) and
+                     WORLD.wpaths[len(iter0.WORLD.wpaths)] == index_path(output_path, root, input_path).strip() and
+                     forall(0, len(filenames), lambda m: not is_cm(filenames[m]) or
+                            WORLD.wpaths[len(iter0.WORLD.wpaths) + 1 + ncm(filenames, m)] ==
+                            page_path(output_path, path_join(root, filenames[m]), input_path).strip(),
+                            pattern=lambda m: filenames[m])),
+                    # C18 (no output directory): no file, no directory; one print per CMake file, index pages are not printed
+                    lambda settings, filenames, output_path:
+                    output_path is not None or
+                    not step_processed(settings.input.auto_exclude_directories_without_cmake, cur(iter0.filenames)) or
+                    (len(WORLD.out) == len(iter0.WORLD.out) + ncm(filenames, len(filenames)) and
+                     len(WORLD.wpaths) == len(iter0.WORLD.wpaths) and len(WORLD.made) == len(iter0.WORLD.made)),
+                    # C14: the index page: title, one toctree (maxdepth 2) listing '<sub>/index.rst' for exactly the
+                    # sub-directories the walk will descend into (recursive mode only), then the base name of every
+                    # page written for this directory, each once
+                    lambda settings, filenames, subdirs, output_path, root, input_path, prefix, recursive, index, toctree, rel_path:
+                    output_path is None or
+                    not step_processed(settings.input.auto_exclude_directories_without_cmake, cur(iter0.filenames)) or
+                    (rel_path == path_relpath(root, input_path) and
+                     index.title == index_title(prefix, settings.rst.module_path_separator, rel_path) and
+                     len(index.document) == 2 and same(index.document[1], toctree) and toctree_shape(toctree) and
+                     len(toctree.document) == 1 + (len(subdirs) if recursive else 0) + ncm(filenames, len(filenames)) and
+                     forall(0, len(subdirs) if recursive else 0,
+                            lambda m: entry_text(toctree, 1 + m, subdirs[m] + "/index.rst")) and
+                     forall(0, len(filenames), lambda j: not is_cm(filenames[j]) or
+                            entry_text(toctree, 1 + (len(subdirs) if recursive else 0) + ncm(filenames, j),
+                                       stem(filenames[j])), pattern=lambda j: filenames[j]) and
+                     WORLD.wdata[len(iter0.WORLD.wdata)] == writer_text(index) and
+                     len(subdirs) == len(cur(iter0.subdirs)) and
+                     forall(0, len(subdirs), lambda m: exists(0, len(cur(iter0.subdirs)),
+                                                              lambda q: cur(iter0.subdirs)[q] == subdirs[m])) and
+                     forall(0, len(cur(iter0.subdirs)), lambda q: exists(0, len(subdirs),
+                                                                        lambda m: subdirs[m] == cur(iter0.subdirs)[q]))),
+                    # C13: without -r the walk ends after the first directory that was processed
+                    lambda settings, recursive:
+                    recursive or _broke or
+                    not step_processed(settings.input.auto_exclude_directories_without_cmake, cur(iter0.filenames)),
+                ]),
+        # ---- exclusion of sub-directories: subdirs = kept prefix ++ untouched rest
+        1: Loop(inv=lambda spec, root, subdirs, _it, _k:
+                distinct_strs(subdirs) and _k <= len(_it) and
+                len(_it) == len(iter0.subdirs) and forall(0, len(_it), lambda j: _it[j] == iter0.subdirs[j], pattern=lambda j: _it[j]) and
+                len(subdirs) == nkd(spec, root, _it, _k) + (len(_it) - _k) and
+                forall(0, nkd(spec, root, _it, _k), lambda q: keepd(spec, root, subdirs[q])) and
+                forall(_k, len(_it), lambda t: subdirs[nkd(spec, root, _it, _k) + (t - _k)] == _it[t],
+                       pattern=lambda t: _it[t]) and
+                forall(0, _k, lambda j: not keepd(spec, root, _it[j]) or
+                       (nkd(spec, root, _it, j) < nkd(spec, root, _it, _k) and
+                        subdirs[nkd(spec, root, _it, j)] == _it[j]), pattern=lambda j: _it[j]),
+                modifies=["items(subdirs)"]),
+        2: Loop(inv=lambda spec, root, filenames, _it, _k:
+                distinct_strs(filenames) and _k <= len(_it) and
+                len(_it) == len(iter0.filenames) and forall(0, len(_it), lambda j: _it[j] == iter0.filenames[j], pattern=lambda j: _it[j]) and
+                len(filenames) == nkf(spec, root, _it, _k) + (len(_it) - _k) and
+                forall(0, nkf(spec, root, _it, _k), lambda q: keepf(spec, root, filenames[q])) and
+                forall(_k, len(_it), lambda t: filenames[nkf(spec, root, _it, _k) + (t - _k)] == _it[t],
+                       pattern=lambda t: _it[t]) and
+                forall(0, _k, lambda j: not keepf(spec, root, _it[j]) or
+                       (nkf(spec, root, _it, j) < nkf(spec, root, _it, _k) and
+                        filenames[nkf(spec, root, _it, j)] == _it[j]), pattern=lambda j: _it[j]),
+                modifies=["items(filenames)"]),
+        # ---- auto-exclusion of sub-directories without a CMake file
+        3: Loop(inv=lambda spec, root, subdirs, _it, _k:
+                distinct_strs(subdirs) and _k <= len(_it) and
+                forall(0, len(_it), lambda j: keepd(spec, root, _it[j])) and
+                len(subdirs) == nkc(spec, root, _it, _k) + (len(_it) - _k) and
+                forall(0, nkc(spec, root, _it, _k), lambda q: keepc(spec, root, subdirs[q])) and
+                forall(0, len(subdirs), lambda q: keepd(spec, root, subdirs[q])) and
+                forall(_k, len(_it), lambda t: subdirs[nkc(spec, root, _it, _k) + (t - _k)] == _it[t],
+                       pattern=lambda t: _it[t]) and
+                forall(0, _k, lambda j: not keepc(spec, root, _it[j]) or
+                       (nkc(spec, root, _it, j) < nkc(spec, root, _it, _k) and
+                        subdirs[nkc(spec, root, _it, j)] == _it[j]), pattern=lambda j: _it[j]),
+                modifies=["items(subdirs)"]),
+        4: Loop(inv=lambda spec, _it, _k:
+                forall(0, _k, lambda m: not (_it[m].g_isfile and _it[m].path.endswith(".cmake") and
+                                             not spec_excl(spec, _it[m].path))),
+                modifies=[]),
+        5: Loop(inv=lambda filenames, _k: forall(0, _k, lambda m: not filenames[m].endswith(".cmake")),
+                modifies=[]),
+        # ---- the index page: '<sub>/index.rst' entries (recursive mode), then one entry per CMake file
+        6: Loop(inv=lambda toctree, subdirs, _k:
+                toctree_shape(toctree) and len(toctree.document) == 1 + _k and
+                forall(0, _k, lambda m: entry_text(toctree, 1 + m, subdirs[m] + "/index.rst")),
+                modifies=["items(toctree.document)"], lean=True),
+        7: Loop(inv=lambda index, toctree, subdirs, recursive, _it, _k:
+                toctree_shape(toctree) and
+                len(entry.toctree.document) == 1 + (len(subdirs) if recursive else 0) and
+                len(toctree.document) == len(entry.toctree.document) + _k and
+                forall(0, len(subdirs) if recursive else 0, lambda m: entry_text(toctree, 1 + m, subdirs[m] + "/index.rst")) and
+                forall(0, _k, lambda m: typeof(toctree.document[len(entry.toctree.document) + m], "Paragraph")) and
+                hint(stem(_it[_k - 1])) and
+                forall(0, _k, lambda m: cast(toctree.document[len(entry.toctree.document) + m], "Paragraph").text == stem(_it[m])) and
+                tree_ok(toctree) and index_tree(index, toctree) and tree_ok(index),
+                modifies=["items(toctree.document)"], lean=True),
+        8: Loop(inv=lambda filenames, _out, _k:
+                len(_out) == ncm(filenames, _k) and
+                forall(0, _k, lambda j: not is_cm(filenames[j]) or
+                       (ncm(filenames, j) < ncm(filenames, _k) and _out[ncm(filenames, j)] == filenames[j]),
+                       pattern=lambda j: filenames[j]),
+                modifies=["items(_out)"], lean=True),
+        # ---- the pages of this directory, in sorted name order
+        9: Loop(inv=lambda settings, filenames, output_path, root, input_path, prefix, index, toctree, rel_path, _k:
+                fs_isdir(input_path) and
+                # (facts about the index page built before this loop, carried to the end of the walk step)
+                (output_path is None or
+                 (rel_path == path_relpath(root, input_path) and
+                  index.title == index_title(prefix, settings.rst.module_path_separator, rel_path) and
+                  len(index.document) == 2 and same(index.document[1], toctree))) and
+                len(WORLD.out) == len(entry.WORLD.out) + (ncm(filenames, _k) if output_path is None else 0) and
+                len(WORLD.wpaths) == len(entry.WORLD.wpaths) + (0 if output_path is None else ncm(filenames, _k)) and
+                len(WORLD.wdata) == len(entry.WORLD.wdata) + (0 if output_path is None else ncm(filenames, _k)) and
+                len(WORLD.made) == len(entry.WORLD.made) + (0 if output_path is None else ncm(filenames, _k)) and
+                forall(0, len(entry.WORLD.wpaths), lambda i: WORLD.wpaths[i] == entry.WORLD.wpaths[i]) and
+                forall(0, len(entry.WORLD.wdata), lambda i: WORLD.wdata[i] == entry.WORLD.wdata[i]) and
+                forall(0, len(entry.WORLD.out), lambda i: WORLD.out[i] == entry.WORLD.out[i]) and
+                forall(0, len(entry.WORLD.made), lambda i: WORLD.made[i] == entry.WORLD.made[i]) and
+                (output_path is None or
+                 forall(len(entry.WORLD.made), len(WORLD.made), lambda i: WORLD.made[i] == output_path)) and
+                (output_path is None or
+                 forall(0, _k, lambda m: not is_cm(filenames[m]) or
+                        (ncm(filenames, m) < ncm(filenames, _k) and
+                         WORLD.wpaths[len(entry.WORLD.wpaths) + ncm(filenames, m)] ==
+                         page_path(output_path, path_join(root, filenames[m]), input_path).strip()),
+                        pattern=lambda m: filenames[m])),
+                lean=True,
+                modifies=["items(WORLD.out) if output_path is None else None",
+                          "items(WORLD.wpaths) if output_path is not None else None",
+                          "items(WORLD.wdata) if output_path is not None else None",
+                          "items(WORLD.made) if output_path is not None else None"]),
+    }
